@@ -82,14 +82,14 @@ KNOWN_FNS: dict[Callable, sympy.Expr] = {
     # math.frexp: sympy.frexp,
     # math.fsum: sympy.fsum,
     math.gamma: sympy.gamma,
-    math.gcd: sympy.gcd,
+    # math.gcd: integer literals are translated to floats
     # math.hypot: sympy.hypot,
     # math.isclose: sympy.isclose,
     # math.isfinite: sympy.isfinite,
     # math.isinf: sympy.isinf,
     # math.isnan: sympy.isnan,
     # math.isqrt: sympy.isqrt,
-    math.lcm: sympy.lcm,
+    # math.lcm: integer literals are translated to floats
     # math.ldexp: sympy.ldexp,
     # math.lgamma: sympy.lgamma,
     math.log: sympy.log,
@@ -102,14 +102,14 @@ KNOWN_FNS: dict[Callable, sympy.Expr] = {
     math.pow: sympy.Pow,
     math.prod: sympy.prod,
     math.radians: sympy.rad,
-    math.remainder: sympy.rem,
+    # math.remainder: sympy.rem is the polynomial remainder
     math.sin: sympy.sin,
     math.sinh: sympy.sinh,
     math.sqrt: sympy.sqrt,
     # math.sumprod: sympy.sumprod,
     math.tan: sympy.tan,
     math.tanh: sympy.tanh,
-    math.trunc: sympy.trunc,
+    # math.trunc: sympy.trunc truncates polynomial coefficients
     # math.ulp: sympy.ulp,
     # numpy
     np.abs: sympy.Abs,
@@ -137,18 +137,18 @@ KNOWN_FNS: dict[Callable, sympy.Expr] = {
     np.cosh: sympy.cosh,
     np.exp: sympy.exp,
     np.floor: sympy.floor,
-    np.gcd: sympy.gcd,
-    np.greater: sympy.GreaterThan,
+    # np.gcd: integer literals are translated to floats
+    np.greater: sympy.StrictGreaterThan,
     np.greater_equal: sympy.Ge,
-    np.invert: sympy.invert,
-    np.lcm: sympy.lcm,
-    np.less: sympy.LessThan,
+    # np.invert: sympy.invert is the modular inverse
+    # np.lcm: integer literals are translated to floats
+    np.less: sympy.StrictLessThan,
     np.less_equal: sympy.Le,
     np.log: sympy.log,
-    np.maximum: sympy.maximum,
-    np.minimum: sympy.minimum,
+    np.maximum: sympy.Max,
+    np.minimum: sympy.Min,
     np.mod: sympy.Mod,
-    np.positive: sympy.Abs,
+    np.positive: sympy.Id,
     np.power: sympy.Pow,
     np.sign: sympy.sign,
     np.sin: sympy.sin,
@@ -159,7 +159,7 @@ KNOWN_FNS: dict[Callable, sympy.Expr] = {
     np.tan: sympy.tan,
     np.tanh: sympy.tanh,
     # np.true_divide: sympy.true_divide,
-    np.trunc: sympy.trunc,
+    # np.trunc: sympy.trunc truncates polynomial coefficients
     # np.vecdot: sympy.vecdot,
 }
 
